@@ -195,6 +195,23 @@ CLAIMED = {
         technique="symbolic execution (CrossHair/z3) of real parser/reader; symbolic fault values + choice-exhaustive layouts",
         ref="3/C17",
     ),
+    "C18": dict(
+        text="Symbolic execution of the real __eq__/__hash__ code: Rational equality for x = na/da, y = nb/db with UNBOUNDED "
+        "symbolic numerators (symmetric, reflexive, equal <=> values equal, != its negation); Constant equality with symbolic "
+        "values over the whole range of uint8 / int64 / float32-range; BitLengthSet equality of differently built sets with "
+        "equal expansions (concatenation, union, repetition, range repetition, padding, commuted operands) for leaves "
+        "32*q + r with q up to 2**40 - never unequal. Where hash() realises a symbolic number the same statements plus "
+        "eq => equal hashes are decided on small choice domains. Choice-exhaustive: all ordered pairs of ~110 independently "
+        "built objects of 9 classes (primitives, arrays, composites incl. delimited and services, fields, paddings, "
+        "constants incl. character-initialised ones, rationals, booleans, strings, sets, bit length sets): == agrees with the "
+        "descriptors, symmetric, hash-consistent, usable as set members; 6 list accessors x 4 composite kinds return copies; "
+        "pickle round trip of every object (witness level).",
+        note="Type parameters that str() formats (widths, capacities, versions) are choice domains; pickling is a C boundary "
+        "and runs on concrete representatives. Pairs of types that agree in kind, string form and bit length set are not "
+        "asserted either way. One defect found and repaired (name_components returned the internal list).",
+        technique="symbolic execution (CrossHair/z3) of real eq/hash code; symbolic numerators/values/leaves, choice-exhaustive pairs",
+        ref="3/C18",
+    ),
     "C19": dict(
         text="Symbolic execution of the real read_namespace/read_files on scratch namespaces in which the TEXT of every "
         "definition outside the dependency closure is an unconstrained symbolic str (any text, any length): the "
